@@ -98,9 +98,118 @@ def aligned_lists(rep):
     rep.coverage["aligned_list_steps"] = n
 
 
+def _align_job(job):
+    """One share of the alignment sweep: for every shift s of the share, a reference list `filler(s), L0 .. L8` (long lines of
+    exactly 1024 characters incl. the newline) is built through the API, so that line ends fall on the character offsets
+    s, s+1024, ..., s+9216; after every step the list must hold exactly the bound pids and every bound pid must be
+    retrievable."""
+    import hashlib
+    import os
+    import shutil
+    from ..absx import Layout
+    from ..common import pattern, snapshot
+    from hashstore.filehashstore import FileHashStore
+    shifts, unit = job
+    data = pattern(200, 5)
+    path = os.path.join(common.scratch(), "c05_align.bin")
+    with open(path, "wb") as f:
+        f.write(data)
+    cid = hashlib.sha256(data).hexdigest()
+    lay = Layout()
+    out = []
+    steps = 0
+    for s in shifts:
+        root = os.path.join(common.scratch(), "c05-align")
+        shutil.rmtree(root, ignore_errors=True)
+        store = FileHashStore(common.props(root))
+        filler = unit * s
+        longs = ["%02d" % i + unit * 1021 for i in range(11)]  # 1023 characters + newline = 1024 per line
+        bound = []
+        bad = None
+
+        def audit(step):
+            nonlocal bad, steps
+            steps += 1
+            t = snapshot(root)
+            lst = t.get(lay.cid_ref_path(cid))
+            lines = lst.decode().split("\n")[:-1] if lst else []
+            if sorted(lines) != sorted(bound):
+                bad = ("reference list does not hold exactly the bound pids", step)
+                return False
+            for p_ in bound:
+                try:
+                    st = store.retrieve_object(p_)
+                    ok = st.read() == data
+                    st.close()
+                except Exception as e:  # noqa: BLE001
+                    ok = False
+                if not ok:
+                    bad = ("a bound pid is not retrievable", step + ": pid #%d of %d" % (bound.index(p_), len(bound)))
+                    return False
+            return True
+
+        def do(step, fn, pid, add):
+            nonlocal bad
+            try:
+                fn()
+            except Exception as e:  # noqa: BLE001
+                bad = ("a call that must succeed raised %s" % type(e).__name__, step)
+                return False
+            (bound.append if add else bound.remove)(pid)
+            return audit(step)
+
+        seq = [("store filler", lambda: store.store_object(filler, path), filler, True)]
+        seq += [("tag long %d" % i, (lambda p_=longs[i]: store.tag_object(p_, cid)), longs[i], True) for i in range(9)]
+        seq += [("delete long 4", lambda: store.delete_object(longs[4]), longs[4], False),
+                ("tag long 9", lambda: store.tag_object(longs[9], cid), longs[9], True),
+                ("delete filler", lambda: store.delete_object(filler), filler, False),
+                ("store long 10", lambda: store.store_object(longs[10], path), longs[10], True)]
+        ok = True
+        for step, fn, pid, add in seq:
+            if not do(step, fn, pid, add):
+                ok = False
+                break
+        if ok:
+            for p_ in list(bound):
+                if not do("delete all", (lambda p_=p_: store.delete_object(p_)), p_, False):
+                    ok = False
+                    break
+        if ok:
+            left = [r for r, b in snapshot(root).items() if b is not None and r != "hashstore.yaml"]
+            if left:
+                bad = ("files remain after every pid was deleted", left[0])
+        if bad:
+            out.append((s, bad[0], bad[1]))
+    return out, steps
+
+
+def alignment_sweep(rep, tier):
+    """EVERY alignment of a reference list's line ends relative to the start of the file, for offsets 1 .. 10240: the filler
+    pid's length s runs through 1 .. 1024 and the long lines are 1024 characters, so the line ends of the lists built here
+    fall on every character offset of that range - in particular on, just before and just after every multiple of every
+    block size up to 8192 a block-wise scan or an in-place rewrite might use.  Thorough: the same with two-byte characters
+    (character offsets and byte offsets then differ)."""
+    from ..par import pmap
+    units = ["x"] + (["\u00e9"] if tier == "thorough" else [])
+    n = 0
+    steps = 0
+    for unit in units:
+        shifts = list(range(1, 1025))
+        jobs = [(shifts[k::32], unit) for k in range(32)]
+        for out, st in pmap(_align_job, jobs):
+            steps += st
+            for s, what, step in out:
+                n += 1
+                rep.violation({"kind": "list-alignment", "what": what + " when a line of the reference list ends at a particular offset"},
+                              {"filler_length": s, "step": step, "unit": unit, "line_ends_at": [s + 1024 * j for j in range(10)]})
+    rep.coverage["alignment_sweep"] = {"shifts": 1024 * len(units), "line_end_offsets_covered": "every offset 1..10240",
+                                       "audited_steps": steps, "violating_shifts": n}
+
+
 def main(tier):
     rep = common.Report("C05", tier, "model_checking")
     aligned_lists(rep)
+    alignment_sweep(rep, tier)
     spec = C05Spec(tier)
     res = engine_s.explore(spec, time_cap=120 if tier == "quick" else 3000, seed=common.SEED)
     for sig, det in res.violations:
@@ -120,4 +229,19 @@ def main(tier):
 
 
 def replay(rep):
+    kind = rep.get("signature", {}).get("kind")
+    if kind == "list-alignment":
+        r = rep["replay"]
+        out, steps = _align_job(([r["filler_length"]], r.get("unit", "x")))
+        for s, what, step in out:
+            print("filler pid of %d characters, step '%s': %s" % (s, step, what))
+        print("replayed 1 shift (%d audited steps), %d violations" % (steps, len(out)))
+        return 1 if out else 0
+    if kind == "aligned-list":
+        sub = type("Sub", (), {"coverage": {}, "found": []})()
+        sub.violation = lambda sig, det: sub.found.append((sig, det))
+        aligned_lists(sub)
+        for sig, det in sub.found:
+            print("VIOLATION:", sig.get("what"), det)
+        return 1 if sub.found else 0
     return replay_history(C05Spec("thorough"), rep)
